@@ -379,7 +379,12 @@ func genC17(g *G) {
 	}
 	// D3 witness and friends
 	for _, q := range []*llo.Quote{{Bid: decimal.New(-2, 0), Benchmark: decimal.New(1, 0), Ask: decimal.New(2, 0)},
-		{Bid: decimal.New(-25, -1), Benchmark: decimal.New(-2, 0), Ask: decimal.New(-15, -1)}, {Bid: decimal.New(0, 0), Benchmark: decimal.New(0, -5), Ask: decimal.New(0, 5)}} {
+		{Bid: decimal.New(-25, -1), Benchmark: decimal.New(-2, 0), Ask: decimal.New(-15, -1)}, {Bid: decimal.New(0, 0), Benchmark: decimal.New(0, -5), Ask: decimal.New(0, 5)},
+		// components strictly between -1 and 0, between 0 and 1, and with leading-zero fractions
+		{Bid: decimal.New(-3, -4), Benchmark: decimal.New(-1, -4), Ask: decimal.New(2, -4)},
+		{Bid: decimal.New(-999, -3), Benchmark: decimal.New(-5, -1), Ask: decimal.New(-1, -9)},
+		{Bid: decimal.New(1, -7), Benchmark: decimal.New(5, -1), Ask: decimal.New(999, -3)},
+		{Bid: decimal.New(-100001, -5), Benchmark: decimal.New(-1, 0), Ask: decimal.New(-5, -2)}} {
 		g.Emit(J{"op": "sv.text", "v": svJ(q)}, "text-roundtrip", "negative-quote")
 		g.Emit(J{"op": "sv.text", "v": svJ(&llo.TimestampedStreamValue{ObservedAtNanoseconds: math.MaxUint64, StreamValue: q})}, "text-roundtrip", "negative-quote")
 	}
